@@ -44,7 +44,7 @@ def groups(tier):
     take(c16)
     take(c18)
     take(c01)
-    take(c17, lambda n: n in ('version-parse', 'range-parse'))
+    take(c17, lambda n: n in ('version-parse', 'range-parse', 'number-content'))
     if tier != 'quick':
         take(c15, lambda n: n == 'depth2-1x1x1')
     gs.append({'name': 'range-any', 'fn': any_group, 'args': {}})
